@@ -54,6 +54,33 @@ def token_compared_in_full(F):
     return Result("inconclusive", "Match not reachable / pattern not matched")
 
 
+
+def drain_readonly(F):
+    f = T + "reconcile_drained_hot_tier_documents"
+    fc = FnCheck(F, f)
+    if fc.fn is None:
+        return [fc.missing()]
+    out = []
+    for name, rx in (("cold_tier.update_metadata", r"= HnswBackend::update_metadata\("), ("cold_tier.delete", r"= HnswBackend::(delete|batch_delete)\(")):
+        ev = call(rx, name=name)
+        if fc.count(ev) == 0:
+            out.append(Result("holds", "no %s in the drain reconciliation" % name, sample={"fn": fc.name, "kind": "NEVER", "B": name}))
+        else:
+            r = fc.reachable(ev)
+            out.append(Result("violated" if r.verdict == "holds" else "inconclusive", "a drain calls %s: evicting a mirror changes the canonical record (a mirror left stale by a bulk load overwrites newer canonical state, "
+                              "and the overwrite is logged)" % name, queries=r.queries, seconds=r.seconds, sample={"fn": fc.name, "kind": "NEVER", "B": name}))
+    INS = call(r"= HnswBackend::insert\(", name="cold_tier.insert (repair)")
+    if fc.count(INS) > 0:
+        # with both canonical parts present (discriminants of the two Option refs == Some) the repair insert is unreachable
+        BOTH_E = Arm(r"^discr\(\(\{\(move _\d+, move _\d+\)\}\.0: Option<&\(Vec<f32>, (\w+::)?VectorCoherenceToken\)>\)\)$", {"1"}, name="canonical vector present")
+        BOTH_M = Arm(r"^discr\(\(\{\(move _\d+, move _\d+\)\}\.1: Option<&HashMap<String, String>>\)\)$", {"1"}, name="canonical metadata present")
+        try:
+            out.append(fc.never(INS, assume=[BOTH_E, BOTH_M]))
+        except PatternError as e:
+            out.append(Result("inconclusive", "pattern: %s" % e))
+    return out
+
+
 MOS = [
     MO("O4.1", "canonical_vector_state: Match only when the canonical token exists, is equal to the mirrored token, and the payload matches its digest",
        allof(only_via(T + "canonical_vector_state", stmt(r"^_0 = (tiered_engine::)?CanonicalVectorState::Match;$", name="return Match"), Arm(r"^discr\(call HnswBackend::current_coherence_token\)$", {"1"}, name="canonical token is Some")),
@@ -105,6 +132,9 @@ MOS = [
 COLD_INSERT = call(r"= HnswBackend::insert\(", name="cold_tier.insert")
 HOT_INSERT = call(r"= HotTier::insert_with_coherence\(", name="hot_tier.insert_with_coherence")
 MOS += [
+    MO("O4.4/drain_readonly", "reconcile_drained_hot_tier_documents (every drain): the canonical record is never modified from a mirror while it exists — no cold_tier.update_metadata / delete at all, and the repairing cold_tier.insert only on the arms "
+       "where the canonical vector or metadata is missing (never when both are present: a stale mirror must not overwrite newer canonical state)",
+       lambda F: drain_readonly(F), functions=[("tiered_engine.rs", "reconcile_drained_hot_tier_documents")]),
     MO("O4.3/insert", "TieredEngine::insert: cache invalidate < durable cold insert (succeeded) < query-cache invalidation < fresh canonical token < hot mirror",
        allof(precedes(T + "insert", call(r"as cache_strategy::CacheStrategy>::invalidate\(", name="cache_strategy.invalidate"), COLD_INSERT),
              only_via(T + "insert", HOT_INSERT, Arm(r"^discr\(try\(call HnswBackend::insert\)\)$", {"0"}, name="cold_tier.insert()? -> Ok")),
